@@ -13,4 +13,15 @@ CHECKS = {
                 "characters; swept). No axioms (Print Assumptions: closed under the global context).",
         "technique": "Coq proof (induction over strings, 256-way byte case analysis) + differential correspondence model/implementation via vm_compute",
     },
+    "C15": {
+        "text": "Theorems for all plugin names, device ids, device lists and maps: a returned key is under the CDI prefix and is a legal Kubernetes "
+                "annotation key (key_is_legal, via a model of the k8s qualified-name matcher), a non-empty value splits back to exactly the requested devices "
+                "(value_roundtrip), UpdateAnnotations is all-or-nothing, adds exactly one unused key and never overwrites (update_fail_unchanged, update_adds_one, "
+                "never_overwrites), ParseAnnotations returns exactly the CDI-prefixed entries and fails with empty results iff a device is unqualified "
+                "(parse_ok_iff, parse_unqualified_fails), update-then-parse round trip; nothing panics. Tied to pkg/cdi/annotations.go and to the real k8s matcher "
+                "(through the verif export hook) by evaluating the model in Coq on generated keys (lengths 58..67, every character class per position), values, maps.",
+        "note": "Trusted: Coq kernel + vm_compute; harness (grouping of ParseAnnotations' flat device list per key, sorting of maps); byte-level modelling of rune "
+                "iteration; the three k8s regular expressions are modelled by explicit matchers and corresponded. No axioms.",
+        "technique": "Coq proof (induction over strings/lists/association lists) + differential correspondence via vm_compute",
+    },
 }
